@@ -191,7 +191,7 @@ def run_check(prop_id, tier, seed, replay=None, workers=None):  # noqa: C901, PL
         rel_env['VERIF_SEED'] = str(seed)
     nworkers = workers or int(os.environ.get('VERIF_WORKERS', '0')) or min(16, os.cpu_count() or 4)
     nshards = 1 if replay else spec.get('shards', {}).get(tier, nworkers)
-    timeout = spec.get('worker_timeout', {}).get(tier, 3600)
+    timeout = spec.get('worker_timeout', {}).get(tier, 1800 if tier == 'quick' else 6 * 3600)
     tmp = tempfile.mkdtemp(prefix=f'verif-{prop_id}-', dir=os.environ.get('VERIF_SCRATCH', '/var/tmp'))
     merged = {
         'evaluations': 0, 'classes': set(), 'outcomes': collections.Counter(), 'violations': [],
